@@ -1206,6 +1206,62 @@ def h_group_mode(ctx, version):
     return [terms, diff]
 
 
+GROUP_LINES = ('announce route 10.1.0.0/24 next-hop 192.0.2.1 med 10', 'withdraw route 10.1.0.0/24', 'announce route 10.1.0.0/24 next-hop 192.0.2.2 med 50',
+               'announce route 10.2.0.0/24 next-hop 192.0.2.1', 'withdraw route 10.2.0.0/24')
+
+
+def h_group_order(ctx, version, n):
+    """The commands of a group are executed in the order they were written.  n lines (solver-chosen from announces and
+    withdraws of two prefixes, so that a withdraw may precede or follow an announce of the same prefix) are given (a) one by
+    one, (b) between `group start` / `group end`, (c) as one inline `group a ; b ; c` line.  The state every neighbor ends
+    in (pending announces and withdraws, cache, attribute index) is the same in the three: grouping is a way of WRITING
+    the commands, not another order of executing them."""
+    getenv().api.version = version
+    picks = [ctx.choice('line%d' % i, len(GROUP_LINES)) for i in range(n)]
+    ctx.assume(len(set(picks)) == len(picks), 'the lines of the group are different commands')
+    lines = [GROUP_LINES[i] for i in picks]
+    kinds = [(l.split()[0], l.split()[2]) for l in lines]
+    if any(a[0] == 'withdraw' and b[0] == 'announce' and a[1] == b[1] for i, a in enumerate(kinds) for b in kinds[i + 1:]):
+        ctx.cover('withdraw-then-announce-of-one-prefix')
+    if any(a[0] == 'announce' and b[0] == 'withdraw' and a[1] == b[1] for i, a in enumerate(kinds) for b in kinds[i + 1:]):
+        ctx.cover('announce-then-withdraw-of-one-prefix')
+
+    def play(texts):
+        reset_world()
+        getenv().api.version = version
+        reactor = RealishReactor()
+        terms = []
+        for text in texts:
+            for out, raised in reactor.send(text):
+                terms.append(terminals(out))
+        left = bool(c_grp._GROUP_BUFFERS)
+        # what every peer ends up holding once the queue is flushed (a withdraw of a route the peer never had is not a difference)
+        from kits.rib import PeerTable, Sender, cached_table
+        snap = {}
+        for k, nb in reactor.neigh.items():
+            table = PeerTable()
+            Sender(nb.rib.outgoing, table, False).send(None)
+            snap[k] = {'peer-holds': sorted(repr(r) for r in table.render()), 'adj-rib-out': sorted(repr(r) for r in cached_table(nb.rib.outgoing).render())}
+        return snap, terms, left
+
+    one_by_one, t1, _ = play(['peer * ' + l for l in lines])
+    multi, t2, left2 = play(['group start'] + lines + ['group end'])
+    inline, t3, left3 = play(['peer * group ' + ' ; '.join(lines)])
+    ctx.check('the-lines-are-valid-commands', t1 == [['done']] * len(lines), sig='C14:group:order:harness:line-not-accepted-on-its-own', info={'lines': lines, 'replies': t1})
+    info = {'lines': lines, 'api-version': version}
+    ctx.check('group-executes-in-written-order', changed(one_by_one, multi) == [], sig='C14:group:order:multi-line-group-differs-from-the-lines-one-by-one',
+              info=dict(info, differs_for=changed(one_by_one, multi), replies=t2,
+                        detail={k: {f: [one_by_one[k][f], multi[k][f]] for f in one_by_one[k] if one_by_one[k][f] != multi[k][f]}
+                                for k in changed(one_by_one, multi)[:1] if isinstance(one_by_one.get(k), dict)}))
+    ctx.check('inline-group-executes-in-written-order', changed(one_by_one, inline) == [], sig='C14:group:order:inline-group-differs-from-the-lines-one-by-one',
+              info=dict(info, differs_for=changed(one_by_one, inline), replies=t3))
+    ctx.check('one-terminal-reply-per-line', len(t2) == len(lines) + 2 and all(len(t) == 1 for t in t2) and len(t3) == 1 and len(t3[0]) == 1,
+              sig='C14:group:order:replies', info=dict(info, multi=t2, inline=t3))
+    ctx.check('group-state-released', not left2 and not left3, sig='C14:group:order:buffer-left', info=info)
+    ctx.cover('group-order')
+    return [picks, t2, t3]
+
+
 # ---- selectors
 
 POOLS = {
@@ -1424,5 +1480,7 @@ def units(tier):
         other.append(('%s-group' % syntax, lambda ctx, s=syntax, v=version: h_selector_group(ctx, s, 'announce', v)))
     other.append(('v6-in-v4-announce', lambda ctx: h_selector(ctx, 'v6', 'announce', 4, keys=('peer-as', 'local-as'))))
     us.append(merged('selector/other', other, must_cover=sel_cov + ('selector-group',), weight=2000, reset=reset_world, max_seconds=1500))
-    assert len(us) <= 24, len(us)
+    us.append(Unit('group/order', lambda ctx: h_group_order(ctx, 6, 3 if th else 2), weight=300, reset=reset_world, max_seconds=900,
+                   must_cover=('group-order', 'withdraw-then-announce-of-one-prefix', 'announce-then-withdraw-of-one-prefix')))
+    assert len(us) <= 25, len(us)
     return us
